@@ -409,6 +409,91 @@ func realTimeHistory(r *rand.Rand) (op, int) {
 	return op{"ops": h.ops, "producers": 1, "pool": false, "undisciplined": false, "realtime": true}, len(h.ops)
 }
 
+// lackingHistory: a held single-stream flow is offered records that lack a configured element (refused with an
+// error, or ignored when not newer) while another flow is being fed and queries run: everything still returns.
+func lackingHistory(r *rand.Rand) (op, int) {
+	p := agg.New(2, 3, 1, 1)
+	h := &hist{}
+	s1 := &stream{key: "k1", kind: "intra", end: 1000, start: 1000, vals: make([]int, 6)}
+	s2 := &stream{key: "k2", kind: "intra", end: 1005, start: 1005, vals: make([]int, 6)}
+	ingest := func(rec agg.Rec) {
+		kind := "Ingest"
+		if rec.Lacking {
+			kind = "IngestLacking"
+		}
+		inv := h.begin()
+		err := p.A.AggregateMsgByFlowKey(agg.BuildMessage(rec))
+		h.end(op{"kind": kind, "r": rec, "err": err != nil}, inv)
+	}
+	for i := 0; i < 2; i++ { // the flow is held before anything else happens
+		ingest(s1.next(r, false))
+	}
+	var wg sync.WaitGroup
+	wg.Add(3)
+	seeds := []int64{r.Int63(), r.Int63(), r.Int63()}
+	go func() { // stream 1: normal, lacking (newer: refused), lacking (not newer: ignored), normal ...
+		defer wg.Done()
+		rr := rand.New(rand.NewSource(seeds[0]))
+		for i := 0; i < 6; i++ {
+			perturb(rr)
+			switch i % 3 {
+			case 1:
+				rec := s1.next(rr, false)
+				rec.Lacking = true
+				ingest(rec)
+			case 2:
+				rec := s1.next(rr, true)
+				rec.Lacking = true
+				ingest(rec)
+			default:
+				ingest(s1.next(rr, false))
+			}
+		}
+	}()
+	go func() {
+		defer wg.Done()
+		rr := rand.New(rand.NewSource(seeds[1]))
+		for i := 0; i < 5; i++ {
+			perturb(rr)
+			ingest(s2.next(rr, false))
+		}
+	}()
+	go func() {
+		defer wg.Done()
+		rr := rand.New(rand.NewSource(seeds[2]))
+		for i := 0; i < 5; i++ {
+			perturb(rr)
+			time.Sleep(time.Duration(rr.Intn(200)) * time.Microsecond)
+			inv := h.begin()
+			n := p.A.GetNumFlows()
+			h.end(op{"kind": "NumFlows", "n": int(n)}, inv)
+		}
+	}()
+	joined := make(chan struct{})
+	go func() { wg.Wait(); close(joined) }()
+	select {
+	case <-joined:
+	case <-time.After(20 * time.Second):
+		ret := h.clock.Add(1)
+		h.mu.Lock()
+		h.ops = append(h.ops, op{"kind": "Hang", "inv": ret, "ret": ret + 1, "detail": "operations did not return within 20 s (deadlock)"})
+		hung := op{"ops": h.ops, "producers": 2, "pool": false, "undisciplined": false, "hung": true}
+		n := len(h.ops)
+		h.mu.Unlock()
+		return hung, n
+	}
+	inv := h.begin()
+	h.end(op{"kind": "GetAll", "flows": flowList(p)}, inv)
+	sort.SliceStable(h.ops, func(i, j int) bool {
+		ri, rj := h.ops[i]["ret"].(int64), h.ops[j]["ret"].(int64)
+		if ri != rj {
+			return ri > rj
+		}
+		return h.ops[i]["inv"].(int64) > h.ops[j]["inv"].(int64)
+	})
+	return op{"ops": h.ops, "producers": 2, "pool": false, "undisciplined": false, "lacking": true}, len(h.ops)
+}
+
 func main() {
 	flag.Parse()
 	thorough := *tier == "thorough"
@@ -437,6 +522,19 @@ func main() {
 		hh := fnv.New64a()
 		hh.Write(b)
 		dist[hh.Sum64()] = true
+		f.Write(b)
+		f.Write([]byte("\n"))
+	}
+	// records lacking a configured element, offered to a held flow while other work goes on
+	nl := 6
+	if thorough {
+		nl = 60
+	}
+	for i := 0; i < nl; i++ {
+		hst, nops := lackingHistory(r)
+		total += nops
+		n++
+		b, _ := json.Marshal(hst)
 		f.Write(b)
 		f.Write([]byte("\n"))
 	}
